@@ -243,6 +243,24 @@ CHECKS["C15"] = dict(
     technique="TLC evaluation of range/ordering theorems on the documented formulas + the same statements on real outputs for every word",
     engine="tlc")
 
+CHECKS["C18"] = dict(
+    category="model_checking",
+    text="Specification side: (a) spec/Formulas.tla HomogOK - every documented indicator formula evaluated on the inputs with all prices "
+         "(resp. all volumes) doubled equals 2^degree x the formula on the original inputs, Undef exactly where the original is - "
+         "evaluated exactly by TLC on every word over the small alphabets (107 k words, 0.32 M theorem instances quick), with the degree "
+         "(price, volume) of each output stated in tools/formulas.py; (b) spec/Rules.tla Dimensional - every comparison atom of every "
+         "documented Buy/Sell rule (30 strategies, 48 atoms) compares quantities of equal degree or a quantity with the literal 0. Code "
+         "side: the real indicators (67 catalogue entries, all but Mls/Mlr) run on every word TLC printed and on the word with prices x 4 "
+         "and, separately, volumes x 8; each output must equal the original x 4^dp resp. 8^dv bit for bit (0.56 M values quick). All 62 "
+         "strategies, compounds and decorators x configurations run on seeded valid OHLCV series and on the series scaled by (8,1), "
+         "(1/4,1), (1,32), ...: the recommendations must be identical.",
+    design_ref="DESIGN.md 2.3, 5 (C18)",
+    note="Power-of-two factors only (that is where the relation is exact and needs no tolerance); strategies on seeded series rather "
+         "than enumerated words; the outcome computation of strategy/outcome.go under scaling is not run here (its model is C08's).",
+    technique="TLC evaluation of homogeneity theorems on the documented formulas and of a dimensional theorem on the documented rules + "
+              "paired real executions on original and scaled inputs",
+    engine="tlc")
+
 CHECKS["C06"] = dict(
     category="model_checking",
     text="(a) documented data: on the network recorded from the real code (asset.SnapshotsAs* extractors labelled by hooks) TLC "
@@ -262,7 +280,6 @@ CHECKS["C06"] = dict(
     engine="tlc")
 
 NOT_APPLICABLE = {
-    "C18": "relation between two float executions (homogeneity): numeric, not a state machine TLC can check (DESIGN.md 6)",
 }
 
 PENDING = "check not built yet (work in progress; see DESIGN.md 10)"
